@@ -1,4 +1,5 @@
 import Sif.Proofs.C10Chain
+import Sif.Proofs.C10Seq
 import Sif.Proofs.C10EndMsgs
 import Sif.Proofs.C10Tie
 import Sif.Generated.Validate
@@ -171,6 +172,28 @@ theorem code_accepts_imp_accepts (e : Env) :
    covers_sound e _ _ tie_updateLPParams, covers_sound e _ _ tie_addRewardPeriod, covers_sound e _ _ tie_addLppd,
    covers_sound e _ _ tie_updateSwapFee⟩
 
+/-! ### sequences of accepted messages -/
+
+/-- `accepted_admin_safe` for HISTORIES: any interleaving of blocks (inside the envelope) with accepted
+    `UpdatePmtpParams`, `ModifyPmtpRates` (new rates, `end_policy`), `UpdateLiquidityProtectionParams` and
+    `ModifyLiquidityProtectionRates` messages — each judged in the state the earlier ones left — runs
+    without a panic.  The invariant carries what one message must leave for the next: in particular the
+    epoch/block counters are zero outside a policy window (`end_policy` has to re-establish this), so the
+    next policy is started by `PolicyStart` with its own validated block rate, whatever block rate was
+    stored between the policies. -/
+theorem accepted_sequence_safe (steps : List Step) (s : BState) (h : Int)
+    (hlp : LpInv s.lp = true) (hpm : PmtpInvP s.pm h) (hhist : HistOKP s h steps) :
+    ∃ s', runSteps s steps = .ok s' :=
+  runSteps_ok steps s h hlp hpm hhist
+
+/-- what `end_policy` must leave behind, stated on its own: after an accepted `ModifyPmtpRates` with
+    `end_policy` inside a running policy the counters are zero and the window is closed -/
+theorem end_policy_resets_counters (m : MsgModifyPmtpRates) (c : Ctx) (pm : Pmtp)
+    (he : m.endPolicy = true) (hin : c.insideWindow = true) :
+    ctrZero (applyModifyPmtpRates m c pm) ∧ (applyModifyPmtpRates m c pm).end_ = c.height := by
+  unfold applyModifyPmtpRates endPolicyNow
+  simp [he, hin, ctrZero]
+
 /-- the Boolean the driver evaluates is the theorem's hypothesis -/
 theorem PmtpInv_iff (pm : Pmtp) (h : Int) : PmtpInv pm h = true ↔ PmtpInvP pm h := by
   unfold PmtpInv; exact decide_eq_true_iff
@@ -187,6 +210,20 @@ example : PmtpInv pm1 4 = true := by decide +kernel
 example : PowAccurate pm1 ⟨48808848170151541⟩ = true := by decide +kernel
 example : EnvOK pm1 ⟨5, some ⟨48808848170151541⟩, [⟨10 ^ 24, 10 ^ 12, 0, 0, true, 6⟩]⟩ = true := by decide +kernel
 example : acceptsModifyPmtpRates ⟨.empty, .val ⟨-5 * 10 ^ 17⟩, false⟩ ⟨3, false, false, false⟩ {} = true := by decide +kernel
+/- a history of several accepted messages (the shape of seeded change C10-2): policy [11,20] at 0.50 per
+   one-block epoch, end_policy at height 12, then policy [21,1020] at 0.01 per 100-block epoch -/
+def envAt (h : Int) (pw : Option Dec) : BEnv := ⟨h, pw, []⟩
+def seqDemo : List Step :=
+  [.updatePmtp ⟨.val ⟨5 * 10 ^ 17⟩, 1, 11, 20⟩ ⟨4, false, false, false⟩] ++
+  (List.range 8).map (fun i => Step.block (envAt (5 + i) (if i = 6 then some ⟨5 * 10 ^ 17⟩ else none)) 0) ++
+  [.modifyRates ⟨.empty, .empty, true⟩ ⟨12, true, false, false⟩,
+   .block (envAt 13 none) 0, .block (envAt 14 none) 0,
+   .updatePmtp ⟨.val ⟨10 ^ 16⟩, 100, 21, 1020⟩ ⟨14, false, false, false⟩] ++
+  (List.range 40).map (fun i => Step.block (envAt (15 + i) (if i = 6 then some ⟨99508259150172⟩ else none)) 0)
+example : HistOKP ⟨⟨false, 0, 0, 1⟩, pm0⟩ 5 seqDemo := histOK_sound _ _ _ (by decide +kernel)
+example : (runSteps ⟨⟨false, 0, 0, 1⟩, pm0⟩ seqDemo).toBool = true := by decide +kernel
+-- with the counters left at (8,1) by a non-resetting end_policy the invariant fails for the next height
+example : PmtpInv { pm1 with start := 11, end_ := 12, epochCtr := 8, blockCtr := 1 } 13 = false := by decide +kernel
 /- negative witnesses (the defects on the unrepaired tree) -/
 -- F3: running rate −1 ⇒ big.Rat division by zero in PolicyRun
 example : (beginBlock ⟨⟨false, 0, 0, 1⟩, { pm0 with running := ⟨-(10 ^ 18)⟩ }⟩ ⟨2, none, [⟨10 ^ 24, 10 ^ 12, 0, 0, true, 6⟩]⟩).toBool = false := by
